@@ -174,10 +174,12 @@ fn parse_expression_identifier(input: ParserInput) -> InternalParserResult<Expre
             "pi" => Ok((remainder, Expression::PiConstant())),
             "sin" => parse_function_call(remainder, ExpressionFunction::Sine),
             "sqrt" => parse_function_call(remainder, ExpressionFunction::SquareRoot),
-            name => Ok((
+            // Only the reserved words above are case-insensitive; a memory region keeps the
+            // spelling it was written with.
+            _ => Ok((
                 remainder,
                 Expression::Address(MemoryReference {
-                    name: name.to_owned(),
+                    name: ident.clone(),
                     index: 0,
                 }),
             )),
